@@ -94,7 +94,7 @@ def run(tier):
             if quick and len(fs) > 40:
                 fs = rnd.sample(fs, 40)
             for (fc, pos, ftext) in fs:
-                if b[0] == "sync" and re.match(r"^\s*[A-Za-z_]\w*(\[[^\]]*\])?\s*$", ftext):
+                if b[0] == "sync" and faults.is_csp_sync(ftext):
                     continue      # `c?` -> `c` is a valid CSP synchronisation: mixing it with `!`/`?` elsewhere is a constraint between blocks, not a fault of this one
                 if ftext.strip() and ftext != text:
                     cases.append((mi, b, fc, pos, ftext))
